@@ -278,3 +278,58 @@ pub fn c11(kind: &str, req: &Value) -> Result<Value, String> {
         _ => Err(format!("unknown c11 op {kind}")),
     }
 }
+
+
+/// C12: evaluate a ruleset / a single condition through the public push API
+pub fn c12(op: &str, req: &Value) -> Result<Value, String> {
+    use js_int::{Int, UInt};
+    use ruma_common::power_levels::NotificationPowerLevels;
+    use ruma_common::push::{AnyPushRuleRef, FlattenedJson, PushCondition, PushConditionPowerLevelsCtx, PushConditionRoomCtx, Ruleset};
+    use ruma_common::serde::Raw;
+    use ruma_common::{OwnedRoomId, OwnedUserId};
+    let c = &req["ctx"];
+    let power_levels = match c.get("power_levels") {
+        Some(p) if !p.is_null() => {
+            let mut users = std::collections::BTreeMap::new();
+            if let Some(m) = p["users"].as_object() {
+                for (k, v) in m {
+                    users.insert(OwnedUserId::try_from(k.as_str()).map_err(|e| e.to_string())?, Int::try_from(v.as_i64().unwrap_or(0)).map_err(|e| e.to_string())?);
+                }
+            }
+            let mut n = NotificationPowerLevels::new();
+            n.room = Int::try_from(p["room"].as_i64().unwrap_or(50)).map_err(|e| e.to_string())?;
+            Some(PushConditionPowerLevelsCtx { users, users_default: Int::try_from(p["users_default"].as_i64().unwrap_or(0)).map_err(|e| e.to_string())?, notifications: n })
+        }
+        _ => None,
+    };
+    let ctx = PushConditionRoomCtx {
+        room_id: OwnedRoomId::try_from(c["room_id"].as_str().unwrap_or("!r:x")).map_err(|e| e.to_string())?,
+        member_count: UInt::try_from(c["member_count"].as_u64().unwrap_or(2)).map_err(|e| e.to_string())?,
+        user_id: OwnedUserId::try_from(c["user_id"].as_str().unwrap_or("@me:x")).map_err(|e| e.to_string())?,
+        user_display_name: c["display_name"].as_str().unwrap_or("me").to_owned(),
+        power_levels,
+    };
+    let raw: Raw<Value> = serde_json::from_value(req["event"].clone()).map_err(|e| e.to_string())?;
+    match op {
+        "eval" => {
+            let rs: Ruleset = serde_json::from_value(req["ruleset"].clone()).map_err(|e| format!("ruleset: {e}"))?;
+            let m = rs.get_match(&raw, &ctx);
+            let v = match m {
+                None => Value::Null,
+                Some(AnyPushRuleRef::Override(r)) => json!(["override", r.rule_id]),
+                Some(AnyPushRuleRef::Underride(r)) => json!(["underride", r.rule_id]),
+                Some(AnyPushRuleRef::Content(r)) => json!(["content", r.rule_id]),
+                Some(AnyPushRuleRef::Room(r)) => json!(["room", r.rule_id.as_str()]),
+                Some(AnyPushRuleRef::Sender(r)) => json!(["sender", r.rule_id.as_str()]),
+                Some(_) => json!(["other", ""]),
+            };
+            Ok(json!({"r": "ok", "v": v}))
+        }
+        "condition" => {
+            let cond: PushCondition = serde_json::from_value(req["condition"].clone()).map_err(|e| format!("condition: {e}"))?;
+            let ev = FlattenedJson::from_raw(&raw);
+            Ok(json!({"r": "ok", "v": cond.applies(&ev, &ctx)}))
+        }
+        _ => Err(format!("unknown c12 op {op}")),
+    }
+}
